@@ -85,6 +85,31 @@ func (k kase) render() string {
 		fmt.Fprintf(&body, "\tvar x %s\n", k.A)
 		declY(&body)
 		fmt.Fprintf(&body, "\tx = %s\n\tuse(x)\n", y)
+	case "tuple-assign":
+		fmt.Fprintf(&body, "\tvar x %s\n\tvar z int\n", k.A)
+		declY(&body)
+		fmt.Fprintf(&body, "\tx, z = %s, 1\n\tuse(x, z)\n", y)
+	case "tuple-assign-mid":
+		fmt.Fprintf(&body, "\tvar x %s\n\tvar w, z int\n", k.A)
+		declY(&body)
+		fmt.Fprintf(&body, "\tw, x, z = 2, %s, 1\n\tuse(w, x, z)\n", y)
+	case "tuple-vardecl":
+		declY(&body)
+		t := k.A
+		if strings.ContainsAny(t, "*<( ") || strings.HasPrefix(t, "func") {
+			t = "(" + t + ")"
+		}
+		fmt.Fprintf(&body, "\tvar x, z %s = %s, *new%s\n\tuse(x, z)\n", k.A, y, "("+k.A+")")
+		_ = t
+	case "tuple-return":
+		var in strings.Builder
+		declY(&in)
+		fmt.Fprintf(&decl, "func fr2() (%s, int) {\n%s\treturn %s, 1\n}\n", k.A, in.String(), y)
+		body.WriteString("\tuse(fr2())\n")
+	case "tuple-arg":
+		fmt.Fprintf(&decl, "func fa2(p %s, q int) {}\n", k.A)
+		declY(&body)
+		fmt.Fprintf(&body, "\tfa2(%s, 1)\n", y)
 	case "vardecl":
 		declY(&body)
 		fmt.Fprintf(&body, "\tvar x %s = %s\n\tuse(x)\n", k.A, y)
@@ -382,6 +407,9 @@ func group(k kase) string {
 	switch k.Ctx {
 	case "assign", "vardecl", "arg", "return", "slice-elem", "map-value", "struct-field", "append":
 		return "assignability in " + k.Ctx
+	case "tuple-assign", "tuple-assign-mid", "tuple-vardecl", "tuple-return", "tuple-arg":
+		// same rule, same finding as the single-pair context
+		return "assignability in " + map[string]string{"tuple-assign": "assign", "tuple-assign-mid": "assign", "tuple-vardecl": "vardecl", "tuple-return": "return", "tuple-arg": "arg"}[k.Ctx]
 	case "send-value", "send", "recv", "close":
 		return "channel operation " + k.Ctx
 	case "+", "<", "&&", "==":
